@@ -131,6 +131,8 @@ fn dbg_state<T: Debug>(s: &T) -> String {
 pub trait Proto: Sized {
     const NAME: &'static str;
     const ID: u16;
+    /// every message class of the protocol
+    const MSGS: &'static [&'static str];
     fn new(ch: Chans) -> Self;
     /// state class of the agent ("" = no such agent / not tracked any more)
     fn state(&self, role: Role) -> String;
@@ -201,6 +203,7 @@ impl Hs {
 impl Proto for Hs {
     const NAME: &'static str = "handshake";
     const ID: u16 = 0;
+    const MSGS: &'static [&'static str] = HS_MSGS;
     fn new(mut ch: Chans) -> Self {
         Hs {
             c: handshake::Client::new(ch.c.take().unwrap()),
@@ -307,6 +310,7 @@ impl Hc {
 impl Proto for Hc {
     const NAME: &'static str = "handshake_n2c";
     const ID: u16 = 0;
+    const MSGS: &'static [&'static str] = HS_MSGS;
     fn new(mut ch: Chans) -> Self {
         Hc {
             c: handshake::Client::new(ch.c.take().unwrap()),
@@ -422,6 +426,7 @@ impl Cs {
 impl Proto for Cs {
     const NAME: &'static str = "chainsync";
     const ID: u16 = 2;
+    const MSGS: &'static [&'static str] = CS_MSGS;
     fn new(mut ch: Chans) -> Self {
         Cs {
             c: chainsync::Client::new(ch.c.take().unwrap()),
@@ -551,6 +556,7 @@ impl Bf {
 impl Proto for Bf {
     const NAME: &'static str = "blockfetch";
     const ID: u16 = 3;
+    const MSGS: &'static [&'static str] = BF_MSGS;
     fn new(mut ch: Chans) -> Self {
         Bf {
             c: blockfetch::Client::new(ch.c.take().unwrap()),
@@ -673,6 +679,7 @@ impl Tx {
 impl Proto for Tx {
     const NAME: &'static str = "txsubmission";
     const ID: u16 = 4;
+    const MSGS: &'static [&'static str] = TX_MSGS;
     fn new(mut ch: Chans) -> Self {
         Tx {
             c: txsubmission::Client::new(ch.c.take().unwrap()),
@@ -785,6 +792,7 @@ impl Ka {
 impl Proto for Ka {
     const NAME: &'static str = "keepalive";
     const ID: u16 = 8;
+    const MSGS: &'static [&'static str] = KA_MSGS;
     fn new(mut ch: Chans) -> Self {
         Ka {
             c: keepalive::Client::new(ch.c.take().unwrap()),
@@ -895,6 +903,7 @@ impl Ps {
 impl Proto for Ps {
     const NAME: &'static str = "peersharing";
     const ID: u16 = 10;
+    const MSGS: &'static [&'static str] = PS_MSGS;
     fn new(mut ch: Chans) -> Self {
         Ps {
             c: peersharing::Client::new(ch.c.take().unwrap()),
@@ -988,6 +997,7 @@ impl Ls {
 impl Proto for Ls {
     const NAME: &'static str = "localstate";
     const ID: u16 = 7;
+    const MSGS: &'static [&'static str] = LS_MSGS;
     fn new(mut ch: Chans) -> Self {
         Ls {
             c: localstate::Client::new(ch.c.take().unwrap()),
@@ -1116,6 +1126,7 @@ impl Lt {
 impl Proto for Lt {
     const NAME: &'static str = "localtxsubmission";
     const ID: u16 = 6;
+    const MSGS: &'static [&'static str] = LT_MSGS;
     fn new(mut ch: Chans) -> Self {
         Lt {
             c: localtxsubmission::Client::new(ch.c.take().unwrap()),
@@ -1272,6 +1283,7 @@ impl Tm {
 impl Proto for Tm {
     const NAME: &'static str = "txmonitor";
     const ID: u16 = 9;
+    const MSGS: &'static [&'static str] = TM_MSGS;
     fn new(mut ch: Chans) -> Self {
         Tm { c: txmonitor::Client::new(ch.c.take().unwrap()), rc: ch.raw_to_c, rs: ch.raw_to_s }
     }
@@ -1356,6 +1368,8 @@ fn combos(steps: &[S]) -> Vec<Vec<String>> {
     out
 }
 
+const OTHER_KIND: usize = usize::MAX;
+
 /// `bad` = Some((k, n)): the k-th step (a recv) is delivered with the n-th bad payload of its class
 async fn probe<P: Proto>(
     out: &mut Ndjson,
@@ -1391,6 +1405,11 @@ async fn probe<P: Proto>(
         for (i, (s, c)) in v.steps.iter().zip(sel.iter()).enumerate() {
             if matches!(s, S::Recv(_)) {
                 match bad {
+                    // a well-formed message of a kind this entry point does not handle
+                    Some((k, OTHER_KIND)) if k == i => {
+                        badkind = "other-kind";
+                        p.deliver(v.role, c).await;
+                    }
                     Some((k, n)) if k == i => {
                         let (kind, bytes) = p.bad_wires(c).swap_remove(n);
                         badkind = kind;
@@ -1405,7 +1424,7 @@ async fn probe<P: Proto>(
             Err(_) => Err("Timeout".to_string()),
         };
         let after = p.state(v.role);
-        let failed = classify(&res) == "refuse";
+        let failed = classify(&res) == "refuse" || (badkind == "other-kind" && res.is_err());
         out.ev(json!({"ev": "call", "proto": P::NAME, "role": v.role.name(), "path": path, "state": state, "peer": peer,
                       "via": v.name, "commit": v.commit, "cond": v.cond, "steps": steps, "res": classify(&res),
                       "err": res.err().unwrap_or_default(), "after": after,
@@ -1414,6 +1433,13 @@ async fn probe<P: Proto>(
         // entry point with an acceptable message of the same kind, on the same pair
         if bad.is_some() && failed && badkind != "malformed" && v.steps.len() == 1 {
             let state2 = p.state(v.role);
+            // (for an unhandled kind: with the first kind the entry point does handle)
+            let sel: Vec<String> = match &v.steps[0] {
+                S::Recv(h) if badkind == "other-kind" => vec![h[0].to_string()],
+                _ => sel.to_vec(),
+            };
+            let sel = &sel[..];
+            let steps: Vec<Value> = vec![json!({"dir": "recv", "msg": sel[0]})];
             p.deliver(v.role, &sel[0]).await;
             let res = match tokio::time::timeout(Duration::from_secs(10), p.call(v.role, v.name, sel)).await {
                 Ok(x) => x,
@@ -1489,6 +1515,19 @@ async fn run_proto<P: Proto>(plan: &[Value], out: &mut Ndjson, reps: usize) {
                             for i in 0..n {
                                 probe::<P>(out, v, path, state, &sel, Some((k, i))).await;
                             }
+                        }
+                    }
+                }
+                // inbound steps of entry points that handle only some kinds: every other kind of the
+                // protocol, well-formed (the table may allow it in this state - e.g. the reply to a
+                // different query - but this entry point must then refuse it without changing state)
+                for (k, st) in v.steps.iter().enumerate() {
+                    if let S::Recv(h) = st {
+                        let base = combos(&v.steps).swap_remove(0);
+                        for c in P::MSGS.iter().filter(|c| !h.contains(c)) {
+                            let mut sel = base.clone();
+                            sel[k] = c.to_string();
+                            probe::<P>(out, v, path, state, &sel, Some((k, OTHER_KIND))).await;
                         }
                     }
                 }
